@@ -119,6 +119,14 @@ func (fr *Frame) callAssigns(c *ssa.CallCommon) (map[string]bool, bool) {
 				}
 			}
 			return out, true // unknown future arrays: be conservative
+		case a.Model == "allrows":
+			for _, mn := range sortedKeys(ex.S.Models) {
+				md := ex.S.Models[mn]
+				if len(md.Params) > 0 && md.Params[0].S == SInt && md.Params[0].Name == "o" {
+					an, _ := ex.modelArray(mn)
+					out[an] = true
+				}
+			}
 		case a.Model != "":
 			an, md := ex.modelArray(a.Model)
 			if md == nil {
@@ -315,6 +323,7 @@ func (fr *Frame) applyContract(in ssa.Instruction, ci calleeInfo, ct *Contract, 
 	// variadic string arguments built from literals get a stable key (e.g. "status.observedGeneration")
 	if cc := callCommonOf(in); cc != nil && ci.sig != nil && ci.sig.Variadic() && len(cc.Args) > 0 {
 		names["varargs_key"] = fr.varargsKey(cc.Args[len(cc.Args)-1])
+		names["dryrun"] = Val{T: fr.varargsHaveGlobal(cc.Args[len(cc.Args)-1], "DryRunAll"), S: SBool}
 	}
 	pre := fr.curMem
 	// requires
@@ -324,6 +333,7 @@ func (fr *Frame) applyContract(in ssa.Instruction, ci calleeInfo, ct *Contract, 
 		}
 		ec := fr.evalCtx(pre, pre)
 		ec.names = names
+		ec.goal = true
 		g, err := ec.tryBool(rq.E)
 		if err != nil {
 			ex.failOb("contract-typechecks", "pre/"+lastSeg(ci.display), err.Error()+" in requires "+rq.Src, pos)
@@ -381,6 +391,13 @@ func (fr *Frame) applyContract(in ssa.Instruction, ci calleeInfo, ct *Contract, 
 		}
 	} else {
 		res = fr.freshResults(ci.sig, "ret_"+lastSeg(ci.display))
+	}
+	if ct.Kind == "lib" || (ct.Kind == "iface" && !strings.HasPrefix(ct.Key, "package-operator.run/")) {
+		for j, r := range res {
+			if isErrorType(ci.sig.Results().At(j).Type()) {
+				ex.assume(fmt.Sprintf("(libErr %s)", r.T), fr.curReach)
+			}
+		}
 	}
 	bindResultNames(names, ci.sig, res)
 	for _, f := range ct.Fresh {
@@ -479,6 +496,19 @@ func (fr *Frame) havocTargets(mem *MemState, targets []AssignTarget, ec *EvalCtx
 			for _, k := range ks {
 				ex.memHavoc(mem, k)
 			}
+		case a.Model == "allrows":
+			row := ec.coerce(ec.eval(a.Arg), SInt)
+			for _, mn := range sortedKeys(ex.S.Models) {
+				md := ex.S.Models[mn]
+				if len(md.Params) == 0 || md.Params[0].S != SInt || md.Params[0].Name != "o" {
+					continue
+				}
+				an, _ := ex.modelArray(mn)
+				_, rowSort, _ := arraySorts(md.arraySort())
+				cur := ex.memGet(mem, an)
+				fv := ex.fresh("row_"+mn, rowSort)
+				ex.memSet(mem, an, fmt.Sprintf("(store %s %s %s)", cur, row.T, fv))
+			}
 		case a.Model != "":
 			an, md := ex.modelArray(a.Model)
 			if md == nil {
@@ -546,6 +576,7 @@ func (fr *Frame) siteClauses(in ssa.Instruction, c *ssa.CallCommon, display stri
 		ec := fr.evalCtx(fr.curMem, fr.entryMem)
 		ec.names = names
 		ec.at = in
+		ec.goal = true
 		g, err := ec.tryBool(s.Cl.E)
 		if err != nil {
 			ex.failOb("contract-typechecks", "site/"+s.Callee, err.Error()+" in "+s.Cl.Src, in.Pos())
@@ -768,4 +799,54 @@ func (fr *Frame) varargsKey(v ssa.Value) Val {
 		}
 	}
 	return Val{T: ex.fresh("varargs_key", SStr), S: SStr}
+}
+
+// varargsHaveGlobal: "true" if the variadic slice literal contains the value of the named package-level variable,
+// "false" if the slice is a literal without it; unknown slices give an arbitrary Bool.
+func (fr *Frame) varargsHaveGlobal(v ssa.Value, global string) string {
+	ex := fr.ex
+	if c, ok := v.(*ssa.Const); ok && c.Value == nil {
+		return "false"
+	}
+	sl, ok := v.(*ssa.Slice)
+	if !ok {
+		return ex.fresh("dryrun", SBool)
+	}
+	al, ok := sl.X.(*ssa.Alloc)
+	if !ok {
+		return ex.fresh("dryrun", SBool)
+	}
+	for _, ref := range *al.Referrers() {
+		ia, ok := ref.(*ssa.IndexAddr)
+		if !ok {
+			continue
+		}
+		for _, r2 := range *ia.Referrers() {
+			st, ok := r2.(*ssa.Store)
+			if !ok || st.Addr != ia {
+				continue
+			}
+			val := st.Val
+			for {
+				switch x := val.(type) {
+				case *ssa.ChangeInterface:
+					val = x.X
+					continue
+				case *ssa.MakeInterface:
+					val = x.X
+					continue
+				}
+				break
+			}
+			if u, ok := val.(*ssa.UnOp); ok {
+				if g, ok := u.X.(*ssa.Global); ok && g.Name() == global {
+					return "true"
+				}
+			}
+			if g, ok := val.(*ssa.Global); ok && g.Name() == global {
+				return "true"
+			}
+		}
+	}
+	return "false"
 }
